@@ -22,11 +22,13 @@ def ruleFormats : List (String × List String) := [
   ("notDirective", ["Expected Directive but got %r"]),
   ("dirDupArg", ["Duplicate argument \"%s\" on directive \"@%s\""]),
   ("dirArgNotInput", ["Expected input type for argument \"%s\" on directive \"@%s\" but got \"%s\""]),
+  ("dirArgDefault", ["Invalid default value for argument \"%s\" on directive \"@%s\": %s"]),
   ("noFields", ["Type \"%s\" must define at least one field"]),
   ("dupField", ["Duplicate field \"%s\" on \"%s\""]),
   ("fieldNotOutput", ["Expected output type for field \"%s\" on \"%s\" but got \"%s\""]),
   ("dupArg", ["Duplicate argument \"%s\" on \"%s\""]),
   ("argNotInput", ["Expected input type for argument \"%s\" on \"%s\" but got \"%s\""]),
+  ("argDefault", ["Invalid default value for argument \"%s\" on \"%s\": %s"]),
   ("resNotCallable", ["Resolver for \"%s\" is not callable"]),
   ("resPositional", ["Resolver for \"%s\" must accept 3 positional parameters, found (%s)"]),
   ("resCollides", ["Argument \"%s\" on \"%s\" collides with a positional resolver parameter"]),
@@ -46,7 +48,9 @@ def ruleFormats : List (String × List String) := [
   ("unionDup", ["UnionType \"%s\" can only include type \"%s\" once"]),
   ("enumEmpty", ["EnumType \"%s\" must at least define one value"]),
   ("enumNotValue", ["Enum \"%s\" expects value to be EnumValue but got \"%s\""]),
-  ("inputFieldNotInput", ["Expected input type for field \"%s\" on \"%s\" but got \"%s\""])
+  ("enumValueNone", ["Enum value \"%s.%s\" cannot have None as its internal value"]),
+  ("inputFieldNotInput", ["Expected input type for field \"%s\" on \"%s\" but got \"%s\""]),
+  ("inputFieldDefault", ["Invalid default value for field \"%s\" on \"%s\": %s"])
 ]
 
 /-- `_replace_types_and_directives`: `busted_cache = busted_cache or ...` in the type loop (T3 fix) -/
@@ -67,6 +71,8 @@ def cfgSubscriptionChecked : Bool := true
 def cfgCatchesTypeError : Bool := true
 def cfgIfaceResolverChecked : Bool := false
 def cfgNotCallableReported : Bool := true
+def cfgDefaultsChecked : Bool := true
+def cfgEnumNoneReported : Bool := true
 /-- `Schema.validate()` only trusts the cached verdict for the resolver callables it was computed with (fix C13-HH1) -/
 def cfgCacheTracksAssignments : Bool := true
 /-- the cached verdict also stands for the ARGUMENTS of every field it was computed with (fix C13-HHH3) -/
